@@ -282,11 +282,15 @@ func (h *history) submit(batch []int, midFlushProb float64) {
 	var states []consensus.State
 	for i, id := range batch {
 		nd := h.t.Node(id)
-		if !nd.ValidChain || nd.Height <= h.t.W.N.HardforkV2.RequireHeight || (i > 0 && nd.Parent != batch[i-1]) {
+		// eligible: header-valid v2 blocks above the require height in parent order; a block on an
+		// invalid chain qualifies only as a descendant of the invalid block (a caller that validated
+		// on top of something the manager never validated), with its header-derived state
+		if nd.Cls != "ok" || nd.Block.V2 == nil || !nd.HasState || nd.Height <= h.t.W.N.HardforkV2.RequireHeight || (i > 0 && nd.Parent != batch[i-1]) ||
+			(!nd.ValidChain && h.t.Node(nd.Parent).ValidChain) {
 			validated = false
 			break
 		}
-		states = append(states, nd.L.CS)
+		states = append(states, nd.State())
 	}
 	if validated {
 		e.Op = "SubmitV"
